@@ -1,0 +1,33 @@
+//go:build !verif
+
+// Package verifhook holds the simulation hook points used by the verification
+// harness. Without the "verif" build tag every function is an empty, inlinable
+// no-op and On is false, so guarded blocks are dead code.
+package verifhook
+
+// On reports whether the simulation hooks are compiled in.
+const On = false
+
+// Y is a yield point.
+func Y(site string) {}
+
+// Spawn is called immediately before a go statement.
+func Spawn(site string) {}
+
+// Enter is the first statement of a spawned goroutine.
+func Enter(site string) {}
+
+// Exit is deferred first in a spawned goroutine.
+func Exit() {}
+
+// Ev records an event without yielding.
+func Ev(site, detail string) {}
+
+// Poll returns the order in which n ready-candidates are polled (nil: disabled).
+func Poll(n int) []int { return nil }
+
+// Order reorders n elements through less/swap (no-op when disabled).
+func Order(n int, less func(i, j int) bool, swap func(i, j int)) {}
+
+// SortedKeys is only meaningful when On is true.
+func SortedKeys[V any](m map[string]V) []string { return nil }
